@@ -52,8 +52,6 @@ FIELD = [
             proof { reveal_strlit(""); assert(""@ =~= Seq::<char>::empty()); }'''),
     ins(A.text('write_comments(w, 1, &field.comments)?;'), '''let ghost w0 = w@;
         ''', where='before'),
-    rep(A.text('None => self'), 'None => match self', tag='T14b'),
-    rep(A.span('.map_err(|e|', '?'), O.MAP_ERR_TAIL, tag='T14b', note='map_err(..)? is a match returning the converted error'),
     rep(A.text('&formatted_renamed_id[1..formatted_renamed_id.len() - 1]'), 'strip_quotes(&formatted_renamed_id)', tag='T3',
         note='string slicing: the text between the first and the last character'),
     ins(A.text('Ok(())'), '''proof {
@@ -82,7 +80,7 @@ UNIT = Unit(
     name='opt_go', props=['C04', 'C07'], pre_verus=O.PRE_VERUS, spec_files=['std_slices.rs', 'typexpr.rs', 'txt.rs', 'optmark.rs'], prelude=PRELUDE,
     items=O.base_items('Go', SRC) + [
         Item('write_field', SRC, ['impl Go {', 'fn write_field'], FIELD, wrap=('impl Go {\n', '\n}\n'),
-             auto=('fmt', 'strlit', 'then_some')),
+             auto=('fmt', 'strlit', 'then_some', 'map_err_q')),
     ],
     functions=['Go::write_field', 'RustType::is_optional', 'RustType::is_double_optional'],
     trusted=O.TRUSTED + ['stubs: acronyms_to_uppercase / format_field_name are pure functions of (acronym list, name); outlined: the slice that removes the '
